@@ -123,10 +123,12 @@ def _exact_zero(v):
     return bool(v == 0)
 
 
-def _cusum_run(ctx, d, spec, x):
-    """run one update of implementation and specification and compare"""
+def _cusum_run(ctx, d, spec, x, floats=False):
+    """run one update of implementation and specification and compare (floats=True: all values are concrete doubles -
+    statistics are compared with a tolerance and a decision closer than 1e-9 to the threshold is not compared)"""
     from menelaus.change_detection import cusum as M
 
+    eqf = (lambda u, v: ctx.approx(u, v, 1e-7)) if floats else ctx.eq
     spec.prepare(x)
     try:
         with rebind(M, max=sym_max):
@@ -140,7 +142,9 @@ def _cusum_run(ctx, d, spec, x):
     ctx.prove(lnot(spec.zero_sd_error), "cusum-zero-sd-must-raise")
     alarm = spec.decide()
     post = d.drift_state
-    ctx.prove(iff(state_is(post, "drift"), alarm), "cusum-drift-iff-spec")
+    close_call = floats and spec.active and (abs(spec.s_h - spec.threshold) < 1e-9 or abs(spec.s_l - spec.threshold) < 1e-9)
+    if not close_call:
+        ctx.prove(iff(state_is(post, "drift"), alarm), "cusum-drift-iff-spec")
     ctx.prove(lnot(state_is(post, "warning")), "cusum-never-warns")
     zero_sd = _exact_zero(spec.sd)  # the sums are inf / nan there: not compared
     if spec.active and not zero_sd:
@@ -149,9 +153,9 @@ def _cusum_run(ctx, d, spec, x):
         n = d.samples_since_reset
         ctx.prove(len(d._upper_bound) == n + 1 and len(d._lower_bound) == n + 1, "cusum-one-sum-per-sample-of-the-epoch")
         if len(d._upper_bound) > n and len(d._lower_bound) > n:
-            ctx.prove(land(ctx.eq(scalar(d._upper_bound[n]), spec.s_h), ctx.eq(scalar(d._lower_bound[n]), spec.s_l)),
+            ctx.prove(land(eqf(scalar(d._upper_bound[n]), spec.s_h), eqf(scalar(d._lower_bound[n]), spec.s_l)),
                       "cusum-sums-equal-spec")
-        ctx.prove(land(ctx.eq(scalar(d.target), spec.target), ctx.eq(scalar(d.sd_hat), spec.sd)), "cusum-target-sd")
+        ctx.prove(land(eqf(scalar(d.target), spec.target), eqf(scalar(d.sd_hat), spec.sd)), "cusum-target-sd")
     spec.alarmed = state_is(post, "drift") is True
     ctx.witness(f"state-{post}")
     return True
@@ -228,6 +232,30 @@ def body_cusum_hist(ctx, burn, direction, N, target_given):
             return
 
 
+def body_cusum_levels(ctx, burn, direction, N, levels, target_given):
+    """every observation is one of a few concrete levels (one solver-driven choice per sample), so the detector runs on
+    real float arrays (dtype conversions, in-place arithmetic on what it stores) through several epochs; compared with
+    the reference recurrences after every update.  Seed C04-9 standardised the stored observation in place."""
+    from menelaus.change_detection import CUSUM
+
+    delta, thr = 0.25, 1.5
+    target, sd = (1.0, 2.0) if target_given else (None, None)
+    d = CUSUM(target=target, sd_hat=sd, burn_in=burn, delta=delta, threshold=thr, direction=direction)
+    spec = CusumSpec(target, sd, burn, delta, thr, direction)
+    epochs = 0
+    for i in range(N):
+        if d.drift_state == "drift":
+            epochs += 1
+            ctx.witness("after-drift")
+            if epochs >= 2:
+                ctx.witness("third-epoch")
+        k = ctx.int(f"level{i}")
+        ctx.assume(between(0, k, len(levels) - 1))
+        x = float(levels[int(k)])
+        if not _cusum_run(ctx, d, spec, x, floats=True):
+            return
+
+
 def body_cusum_zero_deviation(ctx, burn):
     """a constant burn-in window: the estimated deviation is exactly 0 and the documented ValueError must follow on the
     first tested observation (the division by the zero deviation in between is havoc'd, as numpy's inf / nan would be)"""
@@ -246,6 +274,11 @@ def body_cusum_zero_deviation(ctx, burn):
 def jobs(tier):
     q = tier == "quick"
     out = []
+    for direction in (None, "positive"):
+        for tg in (False, True):
+            out.append(Job(f"cusum-levels-{direction}-tg{int(tg)}", "checks.c04:body_cusum_levels",
+                           {"burn": 2, "direction": direction, "N": 11 if q else 13, "levels": [0, 6], "target_given": tg},
+                           expect=("after-drift", "third-epoch") if tg else ("after-drift",), opts={"validate": 1}))
     for direction in ("positive", "negative"):
         for pre in (None, "drift"):
             out.append(Job(f"ph-step-{direction}-{pre}", "checks.c04:body_ph_step", {"direction": direction, "pre": pre},
